@@ -103,7 +103,7 @@ def outcome_of(ex, tr, rt):
     return ['status', ex.status]
 
 
-def evaluate(cfg, requests=('hit', 'hit2', '404', '405'), want=('C01', 'C02', 'C03', 'C04'), stats=None,
+def evaluate(cfg, requests=('hit', 'hit2', 'hit-slashes', '404', '405'), want=('C01', 'C02', 'C03', 'C04'), stats=None,
              shape_only=False, traces=None):
     """-> (findings, info).  info: {'model': summary, 'constructed': bool, 'exchanges': n, ...}"""
     findings = []
@@ -155,9 +155,11 @@ def evaluate(cfg, requests=('hit', 'hit2', '404', '405'), want=('C01', 'C02', 'C
         tok = 't%d' % tok_n[0]
         all_b = spies.prefix_binding_names(cfg) + list(cfg['route']['bindings'])
         n_decoys = len(cfg['route'].get('decoys') or []) + sum(1 for _ in (cfg['route'].get('siblings') or []))
-        if kind in ('hit', 'hit2'):
+        if kind in ('hit', 'hit2', 'hit-slashes'):
+            if kind == 'hit-slashes' and not cfg['route']['bindings']:
+                return
             vals = {b: ('v%d_%s' % (tok_n[0], b)) for b in all_b}
-            path, method, view = spies.request_path(cfg, vals), 'GET', route_view
+            path, method, view = spies.request_path(cfg, vals, '//' if kind == 'hit-slashes' else '/'), 'GET', route_view
             urlv = {b: ['value', v] for b, v in vals.items()}
             route_sym = ['route', n_decoys]
         elif kind == '404':
@@ -192,6 +194,10 @@ def evaluate(cfg, requests=('hit', 'hit2', '404', '405'), want=('C01', 'C02', 'C
             tag = 'kwonly' if ('keyword-only' in msg) else ('posonly' if 'positional-only' in msg else 'other')
             findings.append(Finding('C01', 'C01/request-time-call-error:' + tag,
                                     '%s %s on an accepted configuration escaped: %s: %s'
+                                    % (method, path, type(ex.exc).__name__, msg[:300])))
+            # the same event under C02: the functions below the failing call never received the values of their sources
+            findings.append(Finding('C02', 'C02/chain-call-failed:' + tag,
+                                    '%s %s: the generated chain failed before every function received its arguments: %s: %s'
                                     % (method, path, type(ex.exc).__name__, msg[:300])))
             return
         if traces is not None:
